@@ -61,9 +61,14 @@ class Stats:
         self.ops_run = 0
         self.distinct_ops = set()
         self.child_wall = 0.0
+        self.slow = []
+        self.famhist_runs = 0
         self.long_runs = 0
         self.long_ops = 0
         self.long_pairs = 0
+        self.state_paths = set()
+        self.write_functions = set()
+        self.directed_runs = 0
         self.sweep_runs = 0
         self.sweep_functions = set()
         self.lock_yields = 0
@@ -103,12 +108,17 @@ class Stats:
             self.ops_run += len(cl)
             for op in cl:
                 self.distinct_ops.add(O.op_key(op))
+        if spec.get('famhist'):
+            self.famhist_runs += 1
         if spec.get('long'):
             n = len(spec['clients'][0])
             self.long_runs += 1
             self.long_ops += n
             self.long_pairs += n * (n - 1) // 2
         self.child_wall += res.get('wall', 0)
+        if res.get('wall', 0) > 5:
+            self.slow.append((round(res['wall'], 1), spec['sub'], spec.get('gran'), spec['strategy'].get('kind'), len(spec['clients']),
+                              sum(len(cl) for cl in spec['clients']), res['steps'], spec.get('families')))
         self.lock_yields += res.get('lock_yields', 0)
         if len(self.samples) < 3 and sub == 'S1' and res['nswitch'] and (len(self.samples) == 0 or res['fired']):
             self.samples.append(sample_of(spec, res))
@@ -254,7 +264,7 @@ def finalize_violation(spec, res, m, ref, repo, max_execs, wall_s=None):
     return data, None
 
 
-def explore(tier, seed, repo, budget_s, stats, found, ref, probes, pool, t_end, n_s1, n_s2, instr_frac, sa_frac, chunk=480):
+def explore(tier, seed, repo, budget_s, stats, found, ref, probes, pool, t_end, n_s1, n_s2, instr_frac, sa_frac, chunk=320):
     c = corpus()
     harness = []
 
@@ -273,13 +283,34 @@ def explore(tier, seed, repo, budget_s, stats, found, ref, probes, pool, t_end, 
     # one interleaved job stream (two S1 runs, then one S2 history, ...) under one deadline, so that a
     # long-tailed run of one kind cannot starve the other kind
 
+    dbg = bool(os.environ.get('VERIF_DEBUG'))
+
     def flush(specs):
+        t1 = time.time()
         ref.ensure([op for sp in specs if not sp.get('long') for cl in sp['clients'] for op in cl])
         ref.ensure([op for sp in specs if sp.get('long') for cl in sp['clients'] for op in cl], count=False)
         check_twice(ref, pool, found)
+        t2 = time.time()
         jobs = [(sp['hashseed'], gen.attach(sp, ref, probes)) for sp in specs]
+        t3 = time.time()
         pool.run_jobs(jobs, on_result=on, deadline=t_end)
+        if dbg:
+            print('[C20] chunk of %d specs: refs %.1fs, attach %.1fs, run %.1fs (deadline in %+.1fs)' % (
+                len(specs), t2 - t1, t3 - t2, time.time() - t3, t_end - time.time()), flush=True)
 
+    # phase A: one history per family (all its ops, shuffled, twice, in one process)
+    fams = sorted(c['families'])
+    fh = [gen.gen_family_history(base + 800_000 + i, c, f) for i, f in enumerate(fams) if len(c['families'][f]) >= 2]
+    ref.ensure([op for sp in fh for op in sp['clients'][0]], count=False)
+    check_twice(ref, pool, found)
+    t1 = time.time()
+    pool.run_jobs([(sp['hashseed'], gen.attach(sp, ref, probes)) for sp in fh], on_result=on, deadline=t_end)
+    if os.environ.get('VERIF_DEBUG'):
+        print('[C20] family histories: %d run in %.1fs' % (len(fh), time.time() - t1), flush=True)
+    if harness or found.full():
+        if harness:
+            raise HarnessError('%s seed %s: %s' % (harness[0][0]['sub'], harness[0][0]['seed'], harness[0][1]))
+        return
     specs = []
     i1 = i2 = 0
     while i1 < n_s1 or i2 < n_s2:
@@ -322,7 +353,7 @@ def check_twice(ref, pool, found):
             raise HarnessError('event counting changed the observable of %r but a plain repetition does not' % (op,))
 
 
-def focus_sweep(seed, stats, found, ref, probes, pool, t_end, per_class, reps):
+def focus_sweep(seed, stats, found, ref, probes, pool, t_end, per_class, reps, wf_runs=8, max_fns=14):
     """Systematic part of the search (thorough tier): for every family class, for a few of its families, for
     EVERY repo function that at least two clients of the base scenario execute (grammar actions and lexer rules
     excepted), runs with dense pre-emption inside that one function.  Random schedules find races with wide
@@ -334,6 +365,8 @@ def focus_sweep(seed, stats, found, ref, probes, pool, t_end, per_class, reps):
     bases = []
     i = 0
     for cl in sorted(classes):
+        if cl.startswith('deep_'):
+            continue          # millions of events per op: left to the random stream of the thorough tier
         fams = list(classes[cl])
         rng.shuffle(fams)
         for fam in fams[:per_class]:
@@ -345,16 +378,23 @@ def focus_sweep(seed, stats, found, ref, probes, pool, t_end, per_class, reps):
     check_twice(ref, pool, found)
     lists = {}
 
+    wfs = {}
+
     def on_list(spec, res):
         lists[spec['_b']] = res.get('fns', []) if 'harness_error' not in res else []
+        wf = res.get('wf') if 'harness_error' not in res else None
+        if wf and wf.get('fns'):
+            wfs[spec['_b']] = wf
 
     jobs = []
     for bi, b in enumerate(bases):
         q = dict(b)
         q['cmd'] = 'focus_list'
+        q['want_wf'] = True
+        q['wall_limit_s'] = 120
         q['_b'] = bi
         jobs.append((b['hashseed'], q))
-    pool.run_jobs(jobs, on_result=on_list, deadline=t_end)
+    pool.run_jobs(jobs, on_result=on_list, deadline=time.time() + max(4.0, (t_end - time.time()) * 0.3))
     harness = []
     nfun = [0]
 
@@ -364,6 +404,8 @@ def focus_sweep(seed, stats, found, ref, probes, pool, t_end, per_class, reps):
             return False
         stats.add(spec, res)
         stats.sweep_runs += 1
+        if spec.get('directed'):
+            stats.directed_runs += 1
         if res.get('focus'):
             stats.sweep_functions.add(tuple(res['focus'][:2]))
         if res['mismatches']:
@@ -375,16 +417,52 @@ def focus_sweep(seed, stats, found, ref, probes, pool, t_end, per_class, reps):
     jobs = []
     for bi, b in enumerate(bases):
         fns = [f for f in lists.get(bi, []) if not (f[0].endswith(('parser.py', 'lexer.py')) and not f[0].startswith('sly'))]
+        if len(fns) > max_fns:
+            # a seed-dependent sample, so that different seeds cover different functions
+            rng2 = random.Random('C20/SWEEPFN/%d/%d' % (seed, bi))
+            fns = sorted(rng2.sample(fns, max_fns))
         for f in fns:
             for r in range(reps):
                 spec = _copy.deepcopy(b)
                 # rep 0: line-level alternation; rep 1, 2: bytecode-level pre-emption inside the function (races inside one line)
-                spec['strategy'] = {'kind': 'focus', 'fn': f, 'p': (0.5, 0.5, 0.25)[r % 3], 'instr': r % 3 != 0}
+                spec['strategy'] = {'kind': 'focus', 'fn': f, 'p': (0.5, 0.5, 0.25, 1.0)[r % 4], 'instr': r % 4 in (1, 2)}
                 spec['sched_seed'] = (b['sched_seed'] + r * 7919 + hash_str(f[1])) & 0x3FFFFFFF
+                if r == reps - 1 and reps >= 3:
+                    # last rep: a call is aborted (or hits MemoryError) INSIDE the function, at its n-th line there, while the
+                    # other clients keep using it: exception safety of whatever the function updates
+                    h = hash_str(f[1] + f[0])
+                    spec['strategy'] = {'kind': 'focus', 'fn': f, 'p': 0.3, 'instr': False}
+                    spec['focus_faults'] = [[0, 1 + h % 7, 'abort' if h % 3 else 'mem'], [1, 2 + (h >> 4) % 11, 'abort']]
                 spec = gen.attach(spec, ref, probes)
                 jobs.append((spec['hashseed'], spec))
+    # state-directed runs: the functions that write state which outlives a call (found by fingerprinting module / class
+    # level data and the run's shared renderer / catalog objects) get dense pre-emption *together*, so that the order of
+    # conflicting writes and reads of two clients is shuffled; plus runs with aborts inside them
+    directed = 0
+    for bi, b in enumerate(bases):
+        wf = wfs.get(bi)
+        if not wf:
+            continue
+        for path_ in wf.get('paths', []):
+            stats.state_paths.add(path_)
+        for f in wf['fns']:
+            stats.write_functions.add(tuple(f[:2]))
+        for r in range(wf_runs):
+            spec = _copy.deepcopy(b)
+            spec['strategy'] = {'kind': 'focus', 'fns': wf['fns'], 'p': (0.05, 0.15, 0.4, 0.1)[r % 4]}
+            spec['sched_seed'] = (b['sched_seed'] + 104729 * (r + 1)) & 0x3FFFFFFF
+            spec['directed'] = True
+            if r % 4 == 3:
+                spec['focus_faults'] = [[r % len(b['clients']), 1 + (r * 7) % 13, 'abort']]
+            spec = gen.attach(spec, ref, probes)
+            jobs.append((spec['hashseed'], spec))
+            directed += 1
     rng.shuffle(jobs)
+    t_jobs = time.time()
     pool.run_jobs(jobs, on_result=on, deadline=t_end)
+    if os.environ.get('VERIF_DEBUG'):
+        print('[C20] sweep: %d bases, %d with function lists, %d jobs, generated at %+.1fs before the deadline, ran %d' % (
+            len(bases), sum(1 for v in lists.values() if v), len(jobs), t_end - t_jobs, stats.sweep_runs), flush=True)
     if harness:
         spec, err = harness[0]
         raise HarnessError('focus sweep seed %s: %s' % (spec['seed'], err))
@@ -404,20 +482,21 @@ def main(tier='quick', seed=0, repo=None):
     budget_s = float(os.environ.get('VERIF_BUDGET_S', '900' if tier == 'thorough' else '90'))
     if tier == 'quick':
         n_s1, n_s2, n_s3, s3_slice, instr_frac, sa_frac, max_min = 1600, 800, 16, 400, 0.08, 0.0, 150
-        fr = 0.62
-        sweep = (1, 2, 0.4)
+        fr = 0.45
+        sweep = (1, 3, 0.38)
     else:
         n_s1, n_s2, n_s3, s3_slice, instr_frac, sa_frac, max_min = 10 ** 7, 10 ** 7, 64, None, 0.25, 0.15, 300
-        fr = 0.6
-        sweep = (3, 3, 0.6)
+        fr = 0.5
+        sweep = (3, 4, 0.4)
     stats = Stats()
     found = Found()
     s3_viol = []
     print('[C20] tier=%s seed=%d repo=%s' % (tier, seed, repo or '/repo'), flush=True)
-    ref_pool = Pool([0] * 16, repo)
+    ref_pool = Pool([0] * 12, repo)
     sim_pool = Pool(gen.HASHSEEDS, repo)
     try:
         gen.set_hints(c)
+        gen.QUICK[0] = (tier == 'quick')
         oplist = list(refs.all_ops(c).values())
         ref = refs.LazyRef(ref_pool)
         ref.ensure(probes)
@@ -425,14 +504,19 @@ def main(tier='quick', seed=0, repo=None):
             ref.ensure(oplist)
             print('[C20] reference table: %d ops in %.1fs' % (len(ref), time.time() - t0), flush=True)
         check_twice(ref, sim_pool, found)
+        # time plan: what is left after start-up is split between the random / family phase (explore), the systematic
+        # focus sweep with the state-directed runs, and S3 (fixed work, ~12 % reserved)
         now = time.time()
-        left = max(10.0, budget_s - (now - t0))
+        left = max(20.0, budget_s - (now - t0))
         t_end = now + left * fr
+        phases = [('startup', round(now - t0, 1))]
         if not found.full():
             explore(tier, seed, repo, budget_s, stats, found, ref, probes, sim_pool, t_end, n_s1, n_s2, instr_frac, sa_frac)
+        phases.append(('explore', round(time.time() - t0, 1)))
         if not found.full() and sweep[0]:
-            t_sw = time.time() + max(5.0, (budget_s - (time.time() - t0)) * sweep[2])
-            focus_sweep(seed, stats, found, ref, probes, sim_pool, t_sw, sweep[0], sweep[1])
+            t_sw = max(time.time() + 8.0, now + left * (fr + sweep[2]))
+            focus_sweep(seed, stats, found, ref, probes, sim_pool, t_sw, sweep[0], sweep[1], 8 if tier == 'quick' else 40, 14 if tier == 'quick' else 80)
+        phases.append(('sweep', round(time.time() - t0, 1)))
         # ---------------- S3
         s3_runs = 0
         s3_ops = 0
@@ -481,6 +565,11 @@ def main(tier='quick', seed=0, repo=None):
                     if rec['dg'] != ref[O.op_key(op)]['dg']:
                         s3_viol.append((h, perm, i, rec.get('obs')))
                         break
+        phases.append(('s3', round(time.time() - t0, 1)))
+        print('[C20] phases (seconds since start): %s' % phases, flush=True)
+        if os.environ.get('VERIF_DEBUG'):
+            for x in sorted(stats.slow, reverse=True)[:12]:
+                print('[C20] slow run: %s' % (x,), flush=True)
         # ---------------- violations
         nviol = 0
         known = report.load_known(PROP)
@@ -540,9 +629,13 @@ def main(tier='quick', seed=0, repo=None):
             'op_kind_overlap_pairs': sorted('%s|%s' % p for p in stats.kind_pairs),
             'same_function_overlap_distinct_functions': len(stats.overlap),
             'same_function_overlap_named': {n: stats.overlap.get(n, 0) for n in NAMED_PROBES},
+            'family_histories (all ops of one family, shuffled, twice, one process)': stats.famhist_runs,
             's2_long_histories': stats.long_runs, 's2_long_ops_executed': stats.long_ops,
             's2_long_ordered_pairs (earlier op, later op) in one process': stats.long_pairs,
             'focus_sweep_runs': stats.sweep_runs, 'focus_sweep_distinct_functions': len(stats.sweep_functions),
+            'state_directed_runs': stats.directed_runs,
+            'state_outliving_a_call (paths whose fingerprint changed; search guidance only, not an oracle)': sorted(stats.state_paths)[:40],
+            'functions_writing_such_state': sorted('%s:%s' % f for f in stats.write_functions)[:40],
             'lock_yields (client blocked on a lock held by a parked client)': stats.lock_yields,
             'sim_runs_per_hour': int(sim_runs / max(wall, 1e-6) * 3600), 'seeds_per_hour': int(evaluations / max(wall, 1e-6) * 3600),
             'reference_seconds': round(ref.seconds, 1), 'components': COMPONENTS,
